@@ -13,7 +13,8 @@ import walker_lib as wl
 
 THEOREMS = ['C17_reference_walk', 'C17_exactly_once', 'C17_parent_first', 'C17_no_descent', 'C17_no_descent_ancestors',
             'C17_step_decreases', 'C17_terminates', 'C17_no_stuck', 'C17_end_of_stream', 'C17_some_run_finishes',
-            'C17_error_surfaces', 'C17_no_spurious_error', 'C17_counter_invariant', 'C17_no_panic']
+            'C17_error_surfaces', 'C17_no_spurious_error', 'C17_counter_invariant', 'C17_no_panic',
+            'C17_admits_spec', 'C17_model_listing_admitted']
 
 THREADS = [1, 2, 4, 16]
 WATCHDOG_S = 60
@@ -129,16 +130,16 @@ def gen_cases(run, tier):
     cases.append(Case('unreadable-dir-busy', None, longchain={'siblings': [('w%d' % i, wl.gen_wide(600)) for i in range(4)]}, slow=(100, 1000)))
     cases.append(Case('unreadable-dir-doer', None, longchain={'siblings': [('w', wl.gen_wide(1500))]}, mode='G', threads=[1, 4, 16]))
     # random trees
-    n_rand = 100 if quick else 500
+    n_rand = 100 if quick else 1500
     for i in range(n_rand):
         mode = 'G' if i % 4 == 3 else 'W'
-        t = wl.gen_random(rng, mode, max_depth=rng.choice([2, 3, 5]), max_breadth=rng.choice([3, 5, 9]), p_err=0.3 if i % 5 == 4 else 0.0)
+        t = wl.gen_random(rng, mode, max_depth=rng.choice([2, 3, 5]), max_breadth=rng.choice([3, 5, 9]), p_err=0.5 if i % 3 == 2 else 0.0)
         cases.append(Case('random', t, mode=mode, threads=THREADS if not quick else [rng.choice([1, 2]), 4, 16],
                           reps=1 if quick else 2))
     if not quick:
         cases.append(Case('wide-20000', wl.gen_wide(20000, n_dirs=50, per_dir=10), slow=(1000, 500)))
         cases.append(Case('deep-400', wl.gen_deep(400)))
-        for i in range(20):
+        for i in range(40):
             cases.append(Case('wide-dirs-rep', wl.gen_wide(5, n_dirs=300, per_dir=4), threads=[4, 16], reps=3))
     return cases
 
